@@ -321,8 +321,7 @@ def tpRenderTABLE(self, id, root_url, url, state, substate, diff, data,
 
         if 'sort' in args:
             # Faster/less mem in-place sort
-            if isinstance(items, tuple):
-                items = list(items)
+            items = list(items)  # Copy the list
             sort = args['sort']
             size = range(len(items))
             for i in size:
